@@ -29,8 +29,8 @@ namespace OP2Utility
 		auto paletteFullLength = palette;
 		paletteFullLength.resize(ImageHeader::CalcMaxIndexedPaletteSize(imageHeader.bitCount), DiscreteColor::Black);
 
-		WriteHeaders(writer, imageHeader.bitCount, imageHeader.width, imageHeader.height, palette);
-		writer.Write(palette);
+		WriteHeaders(writer, imageHeader.bitCount, imageHeader.width, imageHeader.height, paletteFullLength);
+		writer.Write(paletteFullLength);
 
 		WritePixels(writer, pixels, imageHeader.width, imageHeader.height, imageHeader.bitCount);
 	}
